@@ -222,6 +222,9 @@ func Assign(left, right value.Value) error {
 		case value.BackendType: // BACKEND = BACKEND
 			rv := value.Unwrap[*value.Backend](right)
 			lv.Value = rv.Value
+			// A director is a backend value without a declaration of its own: without its
+			// configuration `set req.backend = <director>;` left a backend that is neither.
+			lv.Director = rv.Director
 		default:
 			return errors.WithStack(fmt.Errorf("invalid assignment for BACKEND type, got %s", right.Type()))
 		}
